@@ -25,7 +25,7 @@ impl Check for C11 {
         "C11"
     }
     fn ncases(&self, tier: Tier) -> u64 {
-        tier.sz(6000, 80000)
+        tier.sz(24000, 400000)
     }
     fn rule(&self) -> &'static str {
         "one abstract lex specification per case rendered 4 (quick) / 8 (thorough) ways (with/without %grmtools section, flags in header or through the builder, LF/CRLF, whole-line comments, gratuitous lex-style backslash escapes incl. before multi-byte characters, escaped leading '<' and blanks, all three skip-rule spellings, both quote styles, %s/%S/%start/%x/%X spellings); checked: rules in order with name / restricting states / target operation; declared start states with kind; every name_span and start-state name_span slices the user's text to the name; the built lexer behaves like the reference lexer compiled from the abstract regexes on 12 inputs (regex meaning incl. \\c rewriting, flags in force); mutated (broken) renderings must yield errors whose spans lie inside the user's text on the offending line. Non-trivial = rendering has a header or a rewritten escape or a state operator; distinct by rendering text."
@@ -34,7 +34,7 @@ impl Check for C11 {
         vec!["exclusive/inclusive kind and state ids are read from the Debug rendering of StartState (no public accessor)", "regex meaning is checked behaviourally against the reference lexer, never by comparing regex text"]
     }
     fn floor(&self, tier: Tier) -> u64 {
-        tier.sz(8000, 80000)
+        tier.sz(16000, 160000)
     }
     fn required_counters(&self, _t: Tier) -> Vec<&'static str> {
         vec!["renderings", "rules_compared", "name_spans_checked", "state_spans_checked", "escapes_rewritten", "renderings_with_header", "behaviour_inputs", "error_spans_checked"]
